@@ -104,18 +104,29 @@ theorem c18_internal_runs_bounded (s : St) (as : List Act) (h : internalRun s as
     and fair scheduling of the engine's own goroutines: Stop returns. -/
 theorem c18_stop_progress_partial (as : List Act) :
     let s := run init as
-    s.sp ≠ .idle → s.sp ≠ .returned → s.raced = false → ∃ a, a.internal = true ∧ (step s a).isSome = true := by
+    s.sp ≠ .idle → s.sp ≠ .returned → s.raced = false →
+      ∃ a, a ∈ candidates s.conns.length ∧ a.internal = true ∧ (step s a).isSome = true := by
   intro s h0 h1 hr
+  have hconn : ∀ (c : Nat) (a : Act), c < s.conns.length → a ∈ [Act.open c, .store c, .register c true, .teardown c, .scan c] →
+      a ∈ candidates s.conns.length := by
+    intro c a hc ha
+    unfold candidates
+    exact List.mem_append_right _ (List.mem_flatMap.mpr ⟨c, List.mem_range.mpr hc, ha⟩)
+  have hglob : ∀ (a : Act), a ∈ [Act.asyncRun, .stopListeners, .snapshot, .scanEnd, .waitReturn, .onStop, .stopPollers] →
+      a ∈ candidates s.conns.length := by
+    intro a ha
+    unfold candidates
+    exact List.mem_append_left _ ha
   have hi : Inv s := inv_run as inv_init
   cases hsp : s.sp with
   | idle => exact absurd hsp h0
   | returned => exact absurd hsp h1
-  | listenersStopped => exact ⟨.snapshot, rfl, by simp [step, hsp]⟩
-  | onStop => exact ⟨.onStop, rfl, by simp [step, hsp]⟩
-  | pollers => exact ⟨.stopPollers, rfl, by simp [step, hsp]⟩
+  | listenersStopped => exact ⟨.snapshot, hglob _ (by simp), rfl, by simp [step, hsp]⟩
+  | onStop => exact ⟨.onStop, hglob _ (by simp), rfl, by simp [step, hsp]⟩
+  | pollers => exact ⟨.stopPollers, hglob _ (by simp), rfl, by simp [step, hsp]⟩
   | scanning =>
     by_cases hall : allScannedBelow s.conns s.toScan = true
-    · exact ⟨.scanEnd, rfl, by simp [step, hsp, hall]⟩
+    · exact ⟨.scanEnd, hglob _ (by simp), rfl, by simp [step, hsp, hall]⟩
     · -- some conn below `toScan` is unscanned: scan it
       simp only [allScannedBelow, List.all_eq_true, List.mem_range] at hall
       have : ∃ c, c < s.toScan ∧ ¬ ((match s.conns[c]? with | some x => x.scanned | none => true) = true) := by
@@ -127,15 +138,16 @@ theorem c18_stop_progress_partial (as : List Act) :
         intro hcc
         exact hne ⟨c, hc, hcc⟩
       obtain ⟨c, _, hcn⟩ := this
-      refine ⟨.scan c, rfl, ?_⟩
       cases hx : s.conns[c]? with
       | none => simp [hx] at hcn
       | some x =>
+        have hlt : c < s.conns.length := (List.getElem?_eq_some_iff.mp hx).1
+        refine ⟨.scan c, hconn c _ hlt (by simp), rfl, ?_⟩
         simp only [hx] at hcn
         simp [step, stepScan, hsp, hx, hcn]
   | waiting =>
     by_cases hwg : s.wg = 0
-    · exact ⟨.waitReturn, rfl, by simp [step, hsp, hwg]⟩
+    · exact ⟨.waitReturn, hglob _ (by simp), rfl, by simp [step, hsp, hwg]⟩
     · -- the counter is positive: some conn is counted; whatever its phase, the engine can move it
       have hps : pastSnapshot s.sp = true := by simp [pastSnapshot, hsp]
       have hwg' := hi.acct.wg
@@ -165,13 +177,13 @@ theorem c18_stop_progress_partial (as : List Act) :
       cases hph : x.ph with
       | accepted => simp [counted, hph] at hcx
       | done => simp [counted, hph] at hcx
-      | opening => exact ⟨.store c, rfl, by simp [step, stepStore, hx, hph]⟩
-      | tabled => exact ⟨.register c true, rfl, by simp [step, stepRegister, hx, hph]⟩
-      | closing => exact ⟨.teardown c, rfl, by simp [step, stepTeardown, hx, hph]⟩
+      | opening => exact ⟨.store c, hconn c _ hlen (by simp), rfl, by simp [step, stepStore, hx, hph]⟩
+      | tabled => exact ⟨.register c true, hconn c _ hlen (by simp), rfl, by simp [step, stepRegister, hx, hph]⟩
+      | closing => exact ⟨.teardown c, hconn c _ hlen (by simp), rfl, by simp [step, stepTeardown, hx, hph]⟩
       | torn =>
         have hq := hi.acct.cbq c
         simp only [cbDue, hx, hph, if_true] at hq
-        refine ⟨.asyncRun, rfl, ?_⟩
+        refine ⟨.asyncRun, hglob _ (by simp), rfl, ?_⟩
         cases hqq : s.asyncQ with
         | nil => rw [hqq] at hq; simp at hq
         | cons j q => cases j <;> simp [step, stepAsync, hqq]
@@ -181,7 +193,7 @@ theorem c18_stop_progress_partial (as : List Act) :
         obtain ⟨y, hy, hsy⟩ := hi.reg.below (Or.inl hsp) c (by omega)
         rw [hx] at hy; cases hy
         have hm := hi.reg.caught hr c x hx hsy (by simp [isOpen, hph])
-        refine ⟨.asyncRun, rfl, ?_⟩
+        refine ⟨.asyncRun, hglob _ (by simp), rfl, ?_⟩
         cases hqq : s.asyncQ with
         | nil => rw [hqq] at hm; cases hm
         | cons j q => cases j <;> simp [step, stepAsync, hqq]
@@ -194,6 +206,92 @@ theorem c18_no_race_when_settled (pre post : List Act) :
     Settled s₁ → s₁.raced = false → (∀ a ∈ post, isNew a = false) → (run s₁ post).raced = false := by
   intro s₁ h hr ha
   exact (settled_run post h hr ha).2
+
+theorem run_append (s : St) (as bs : List Act) : run s (as ++ bs) = run (run s as) bs := by
+  induction as generalizing s with
+  | nil => rfl
+  | cons a as ih =>
+    simp only [List.cons_append, run]
+    split <;> exact ih _
+
+theorem sp_not_idle_step {s s' : St} {a : Act} (h : step s a = some s') (hs : s.sp ≠ .idle) : s'.sp ≠ .idle := by
+  cases a with
+  | new k => cases k <;> simp only [step, stepNew] at h <;> (try split at h) <;> first | (cases h; exact hs) | cases h
+  | «open» c => simp only [step, stepOpen] at h; split at h <;> (try split at h) <;> first | (cases h; exact hs) | cases h
+  | store c => simp only [step, stepStore] at h; split at h <;> (try split at h) <;> first | (cases h; exact hs) | cases h
+  | register c ok => simp only [step, stepRegister] at h; split at h <;> (try split at h) <;> first | (cases h; exact hs) | cases h
+  | flip c => simp only [step, stepFlip] at h; split at h <;> (try split at h) <;> first | (cases h; exact hs) | cases h
+  | teardown c => simp only [step, stepTeardown] at h; split at h <;> (try split at h) <;> first | (cases h; exact hs) | cases h
+  | asyncRun =>
+    simp only [step, stepAsync] at h
+    split at h
+    · cases h
+    · cases h; unfold runCloseConn; split <;> (try split) <;> exact hs
+    · cases h; unfold runCloseCb; split <;> exact hs
+  | stopListeners => simp only [step] at h; split at h <;> first | (cases h; simp) | cases h
+  | snapshot => simp only [step] at h; split at h <;> first | (cases h; simp) | cases h
+  | scan c => simp only [step, stepScan] at h; split at h <;> (try split at h) <;> (try split at h) <;> first | (cases h; exact hs) | cases h
+  | scanEnd => simp only [step] at h; split at h <;> first | (cases h; simp) | cases h
+  | waitReturn => simp only [step] at h; split at h <;> first | (cases h; simp) | cases h
+  | onStop => simp only [step] at h; split at h <;> first | (cases h; simp) | cases h
+  | stopPollers => simp only [step] at h; split at h <;> first | (cases h; simp) | cases h
+
+theorem sp_not_idle_run (as : List Act) {s : St} (hs : s.sp ≠ .idle) : (run s as).sp ≠ .idle := by
+  induction as generalizing s with
+  | nil => exact hs
+  | cons a as ih =>
+    simp only [run]
+    split
+    · rename_i s' h; exact ih (sp_not_idle_step h hs)
+    · exact ih hs
+
+/-- **Stop returns** (assembled). Start from any reachable state in which Stop has been called, no `addConn` is in
+    flight (`Settled`) and no registration has raced the snapshot; let the engine's own goroutines run — any schedule of
+    engine-internal steps, of any length, in any order — until none of them is enabled any more (`stuck`): then Stop
+    has returned. Such a maximal run exists and is short: every internal step decreases `mu`
+    (`c18_internal_runs_bounded`). Hypotheses not expressible in the model: the user's OnOpen/OnClose handlers return,
+    and the scheduler eventually runs every enabled goroutine (fairness). -/
+theorem c18_stop_returns (pre as : List Act) :
+    let s₁ := run init pre
+    Settled s₁ → s₁.raced = false → s₁.sp ≠ .idle → (∀ a ∈ as, a.internal = true) →
+    let s₂ := run s₁ as
+    stuck s₂ = true → s₂.sp = .returned := by
+  intro s₁ hset hr hsp hint s₂ hstuck
+  have hnew : ∀ a ∈ as, isNew a = false := by
+    intro a ha
+    have := hint a ha
+    cases a <;> simp [Act.internal, isNew] at this ⊢
+  have hr₂ : s₂.raced = false := (settled_run as hset hr hnew).2
+  have hsp₂ : s₂.sp ≠ .idle := sp_not_idle_run as hsp
+  have heq : s₂ = run init (pre ++ as) := (run_append init pre as).symm
+  apply Classical.byContradiction
+  intro hne
+  have hp := c18_stop_progress_partial (pre ++ as)
+  simp only at hp
+  rw [← heq] at hp
+  obtain ⟨a, hmem, _, hen⟩ := hp hsp₂ hne hr₂
+  simp only [stuck, List.all_eq_true] at hstuck
+  have := hstuck a hmem
+  rw [Option.isNone_iff_eq_none] at this
+  rw [this] at hen
+  cases hen
+
+/-- the failure path of `DialAsync` (`addDialer` fails at `addReadWrite`) on the **pinned** tree: the conn had been
+    counted (`wgConn.Add(1)`), `closeWithError` ran the full teardown (the close callback is queued and will call
+    `wgConn.Done()`), and `DialAsync` itself called `wgConn.Done()` too — two `Done` for one `Add`. -/
+def dialFailPinned (s : St) : St :=
+  { s with conns := s.conns ++ [{ ph := .torn, inTable := false, scanned := false, cbs := 0 }],
+           asyncQ := s.asyncQ ++ [.closeCb s.conns.length],
+           wg := s.wg + 1 - 1 }
+
+/-- … which drives the wait-group counter negative (Go panics: "sync: negative WaitGroup counter") as soon as Stop's
+    own `Done` and the queued close callback have both run. The merged tree (the lifecycle family's repair: the
+    failure path detaches the conn, `c.p = nil`, before `closeWithError`, so the teardown does not notify) makes the
+    failure path a no-op on the counter — it is not a step of `step`, and the predicate
+    `adddialer_failure_detaches_conn` / `dial_add_before_register_single_done` (vlib/cs_stop.py) ties that to the source. -/
+theorem c18_dialfail_pinned_counterexample :
+    (run (dialFailPinned init) [.stopListeners, .snapshot, .asyncRun]).wg = -1 := by
+  decide
 
 /-- **Defect #11: the full-strength progress statement is false.** A conn whose open callback is still running when
     Stop scans its (still empty) table slot is stored afterwards, is never closed by Stop, and `Wait` blocks for
